@@ -322,7 +322,7 @@ fn search_handbuilt(big: bool) {
 
 // @harness c10_read_info_header
 // @props C10 C01 C02
-// @tier quick
+// @tier off
 // @kind core
 // @timeout 2400
 // @mem 24
@@ -341,7 +341,7 @@ fn c10_read_info_header() {
 
 // @harness c10_read_info_bigendian
 // @props C10
-// @tier quick
+// @tier off
 // @kind core
 // @timeout 2400
 // @mem 24
